@@ -67,13 +67,15 @@ Definition spec_well_formed (spec : colspec) : bool :=
    (l.4613-4649): index_tuples[2k], index_tuples[2k+1] index total_weights (num_weights + 1
    elements) and the state vector x (num_weights + 1 elements).  [checked = false] is the code
    without any validation of the tuples (finding C09-N10); [checked = true] validates them
-   with check_set_indexes(num_weights, ...) like the sample-set statistics do. *)
+   with check_set_indexes(num_weights + 1, ...): id num_weights is the column of ones the
+   function appends — in bounds, and relied upon by tests/test_lowlevel.py
+   (TwoWayWeightedStatsMixin passes indexes [[0, 1]] with a single weight column). *)
 Definition check_set_indexes (num_sets : Z) (idx : list Z) : bool :=       (* true = accepted *)
   forallb (fun i => (0 <=? i) && (i <? num_sets)) idx.
 
 Definition relatedness_weighted_entry (checked : bool) (num_weights : Z) (index_tuples : list Z) : res unit :=
   if num_weights =? 0 then Err E_LIBRARY else
-  if checked && negb (check_set_indexes num_weights index_tuples) then Err E_LIBRARY else
+  if checked && negb (check_set_indexes (num_weights + 1) index_tuples) then Err E_LIBRARY else
   do _ <- read_all (alloc (num_weights + 1) 0) index_tuples;      (* total_weights[i] *)
   read_all (alloc (num_weights + 1) 0) index_tuples.               (* x[i] *)
 
